@@ -35,9 +35,31 @@ Contract(T_, 'URLFiltersSetupTask._build_url_filters', {'cls': TAny(), 'session'
     ], raises={})
 
 # the span-hosts filter is appended after the start URLs are known
-ALIASES[('DemuxURLFilter', 'url_filters')] = '_url_filters'      # property `url_filters` returns the list object itself (verified below)
+# `demux.url_filters.append(f)` changes the filter list only if the property hands out THE list object.  Lists are values in this engine, so identity is
+# decided from the source: the getter must be exactly `return self._url_filters`.  Anything else (a copy, a tuple, a filtered view) makes the alias invalid: the
+# append then goes to a temporary, as it does in CPython, and the builder's postconditions below are what fail.
+def _getter_returns_the_field(relpath, cls, prop, field):
+    import ast as _a, os as _o
+    try: tree = _a.parse(open(_o.path.join(REPO, relpath), encoding='utf-8').read())
+    except (OSError, SyntaxError): return False
+    for n in tree.body:
+        if isinstance(n, _a.ClassDef) and n.name == cls:
+            for f in n.body:
+                if isinstance(f, _a.FunctionDef) and f.name == prop and any(_a.unparse(d) == 'property' for d in f.decorator_list):
+                    body = [x for x in f.body if not (isinstance(x, _a.Expr) and isinstance(x.value, _a.Constant))]
+                    return len(body) == 1 and isinstance(body[0], _a.Return) and body[0].value is not None and _a.unparse(body[0].value) == 'self.' + field
+    return False
+if _getter_returns_the_field('wpull/urlfilter.py', 'DemuxURLFilter', 'url_filters', '_url_filters'):
+    ALIASES[('DemuxURLFilter', 'url_filters')] = '_url_filters'
+else:
+    ALIASES.pop(('DemuxURLFilter', 'url_filters'), None)
+    FRESH_VALUE_PROPERTIES.add(('DemuxURLFilter', 'url_filters'))
 Contract('wpull/urlfilter.py', 'DemuxURLFilter.url_filters', {'self': TObj('DemuxURLFilter')}, ret=TList(TObj('BaseURLFilter')), prop='C02',
-         ensures=[('alias', 'result == self._url_filters')], raises={}, name='DemuxURLFilter.url_filters/getter')
+         ensures=[('alias', 'result == self._url_filters')], raises={}, name='DemuxURLFilter.url_filters/getter', is_property=True)
+if ('DemuxURLFilter', 'url_filters') in FRESH_VALUE_PROPERTIES:
+    # read through the getter's contract (a value), not through the field: call-site view of the contract verified just above
+    Assumed('wpull/urlfilter.py', 'DemuxURLFilter.url_filters', {'self': TObj('DemuxURLFilter')}, ret=TList(TObj('BaseURLFilter')), ensures=['result == self._url_filters'], raises={},
+            name='DemuxURLFilter.url_filters', is_property=True, note='call-site view of DemuxURLFilter.url_filters/getter')
 Assumed('wpull/database/base.py', 'BaseURLTable.get_hostnames', {'self': TObj('URLTable')}, name='URLTable.get_hostnames', ret=TList(TStr()), raises={}, pure=True)
 D = 'session.factory["DemuxURLFilter"]._url_filters'
 LAST = 'cast("SpanHostsFilter", %s[len(%s) - 1])' % (D, D)
